@@ -290,6 +290,21 @@ func runC08(c *Ctx, r *Run) {
 		}
 	}
 
+	// ---- the Doerner refresh: both refresh scalars are committed in round 1 and the openings gate acceptance in round 2
+	// (rules OB-G1/OB-G2 of C03, restricted to the Doerner key generation / refresh rounds): without that binding the
+	// party that speaks second can choose its scalar so that both shares stay what they were
+	r.Rule("OB-G2", "Doerner refresh: every commitment of round 1 (public share, refresh scalar, chain key) is opened by a Decommit that gates acceptance")
+	r.Rule("OB-G1", "Doerner refresh: received proofs are verified on every accepting path")
+	{
+		sub3 := NewRun("tmp", r.Tier)
+		runC03(c, sub3)
+		for _, o := range sub3.Obs {
+			if (o.Rule == "OB-G2" || o.Rule == "OB-G1") && strings.Contains(o.Key, "protocols/doerner/keygen") {
+				r.Check(o.Rule, o.Key, o.Pos, o.Held, o.Desc, o.Detail)
+			}
+		}
+	}
+	r.Require("OB-G2", 3)
 	r.Require("DEP-3", 4)
 	// entry by entry: every write into the FROST verification-share table builds on the entry it replaces
 	if fn := c.LookupMethod("protocols/frost/keygen", "round3", "Finalize"); fn != nil {
